@@ -41,7 +41,7 @@ Proof.
     destruct (g_steps ServerStream (g_init (negb false)) (map S2C ms ++ [Cancel false])) as [c sv].
     unfold got. cbn [fst] in *. change (gots ([CSent true; CClosed] ++ c) = ms). rewrite gots_app. exact H.
   - unfold wf, stream_scn. cbn [precancel shp steps cs negb]. apply wf_stream_steps.
-  - unfold no_known, known_class, stream_scn. cbn [precancel shp steps]. rewrite k1_stream, k2_stream, k4_stream. reflexivity.
+  - unfold no_known, known_class, stream_scn. cbn [precancel shp steps]. rewrite k1_stream, k2_stream. reflexivity.
 Qed.
 
 Theorem router_stream_transparent : forall ms, router_stream ms = ms.
